@@ -73,6 +73,11 @@ pub fn check_wall(z: &hook::Zone, m: &Model, w: i64, obs: &mut Obs) -> Result<()
         obs.label("exempt_boundary_second");
         return Ok(());
     }
+    // change points are whole seconds: the same wall-clock second with a fraction has the same occurrences
+    if let Some(n2) = n.checked_add_signed(chrono::TimeDelta::milliseconds(500)) {
+        let r2 = call("offsets_for_local", || hook::offsets_for_local(z, n2))?.map_err(|e| format!("offsets_for_local({w}.5) = Err({e})"))?;
+        ensure!(r2 == r, "wall {w} + 0.5 s is answered {r2:?}, wall {w} itself {r:?}");
+    }
     match s.len() {
         1 => {
             obs.label("wall_once");
@@ -279,6 +284,9 @@ impl SubCheck for SystemZone {
 pub struct LReq {
     pub inst: Vec<i64>,
     pub wall: Vec<i64>,
+    /// also report what `Local::now()` carries
+    #[serde(default)]
+    pub now: bool,
 }
 #[derive(Clone, Debug, Serialize, Deserialize)]
 pub struct LResp {
@@ -286,6 +294,9 @@ pub struct LResp {
     pub inst: Vec<Vec<(String, Result<i32, String>)>>,
     /// per wall-clock time: (route, offsets earliest first or panic message)
     pub wall: Vec<Vec<(String, Result<Vec<i32>, String>)>>,
+    /// `Local::now()`: (its Unix timestamp, the offset it carries, the offset the instant route gives for it)
+    #[serde(default)]
+    pub now: Option<(i64, i32, i32)>,
 }
 
 #[allow(deprecated)]
@@ -297,7 +308,11 @@ pub fn child(req_json: &str) -> i32 {
     };
     let g = |f: &mut dyn FnMut() -> i32| -> Result<i32, String> { crate::guard::guard(|| f()) };
     let mlt = |r: MappedLocalTime<i32>| match r { MappedLocalTime::None => vec![], MappedLocalTime::Single(a) => vec![a], MappedLocalTime::Ambiguous(a, b) => vec![a, b] };
-    let mut resp = LResp { inst: vec![], wall: vec![] };
+    let mut resp = LResp { inst: vec![], wall: vec![], now: None };
+    if req.now {
+        let n = Local::now();
+        resp.now = Some((n.timestamp(), n.offset().fix().local_minus_utc(), Local.offset_from_utc_datetime(&n.naive_utc()).fix().local_minus_utc()));
+    }
     for &u in &req.inst {
         let mut rs: Vec<(String, Result<i32, String>)> = vec![];
         if let Some(n) = ndt_of_unix(u) {
@@ -331,6 +346,9 @@ pub fn child(req_json: &str) -> i32 {
             let gv = |f: &mut dyn FnMut() -> Vec<i32>| -> Result<Vec<i32>, String> { crate::guard::guard(|| f()) };
             rs.push(("offset_from_local_datetime".into(), gv(&mut || mlt(Local.offset_from_local_datetime(&n).map(|o| o.local_minus_utc())))));
             rs.push(("from_local_datetime".into(), gv(&mut || mlt(Local.from_local_datetime(&n).map(|d| if d.naive_local() != n { i32::MIN } else { d.offset().fix().local_minus_utc() })))));
+            if let Some(n2) = n.checked_add_signed(chrono::TimeDelta::milliseconds(500)) {
+                rs.push(("from_local_datetime (+0.5 s)".into(), gv(&mut || mlt(Local.from_local_datetime(&n2).map(|d| if d.naive_local() != n2 { i32::MIN } else { d.offset().fix().local_minus_utc() })))));
+            }
             rs.push(("and_local_timezone".into(), gv(&mut || mlt(n.and_local_timezone(Local).map(|d| d.offset().fix().local_minus_utc())))));
             rs.push(("with_ymd_and_hms".into(), gv(&mut || mlt(Local.with_ymd_and_hms(n.year(), n.month(), n.day(), n.hour(), n.minute(), n.second()).map(|d| d.offset().fix().local_minus_utc())))));
             // deprecated date routes: local midnight of the wall-clock date
@@ -352,6 +370,9 @@ pub enum TzSrc {
     System(String, bool),
     /// generated zone file written to a scratch directory, named by absolute path; colon prefix or not
     File(ZoneFile, bool),
+    /// a zone with one change `hours` (may be negative) after the current hour, offsets a -> b: the only
+    /// way to have `Local::now()` look at an instant near a transition
+    NearNow { hours: i8, a: i32, b: i32 },
 }
 #[derive(Clone, Debug, Serialize, Deserialize)]
 pub struct LCase {
@@ -377,10 +398,13 @@ impl SubCheck for LocalRoutes {
         let sys = (proptest::sample::select(files), any::<bool>(), 1950i64..2037).prop_map(|(n, colon, y)| LCase { tz: TzSrc::System(n, colon), extra: vec![cal::days_from_civil(y, 7, 20) * 86_400] });
         // generated files, a few of them far larger than any real zone file (tens of kilobytes)
         let file = (prop_oneof![8 => zone_file(40), 1 => zone_file(3000), 1 => zone_file(12_000)], any::<bool>(), extra_instants()).prop_map(|(f, colon, extra)| LCase { tz: TzSrc::File(f, colon), extra });
-        Some(prop_oneof![3 => rule, 1 => sys, 1 => file].boxed())
+        let near_now = (-14i8..=14, (-50i32..=56, -8i32..=8).prop_filter_map("no change", |(q, d)| if d != 0 { Some((q * 900, (q * 900 + d * 900).clamp(-86_000, 86_000))) } else { None }))
+            .prop_map(|(hours, (a, b))| LCase { tz: TzSrc::NearNow { hours, a, b }, extra: vec![] });
+        Some(prop_oneof![6 => rule, 2 => sys, 2 => file, 1 => near_now].boxed())
     }
     fn check(&self, c: &LCase, obs: &mut Obs) -> Result<(), String> {
         let mut scratch: Option<std::path::PathBuf> = None;
+        let mut want_now = false;
         let (tzval, m) = match &c.tz {
             TzSrc::Rule(rule, explicit) => {
                 let m = match rule {
@@ -395,6 +419,19 @@ impl SubCheck for LocalRoutes {
                 if let Some(r) = &m.footer { if !r.well_inside_year() { obs.label("skipped_footer_rule_outside_quantifier"); return Ok(()); } }
                 (if *colon { format!(":{name}") } else { name.clone() }, m)
             }
+            TzSrc::NearNow { hours, a, b } => {
+                use crate::refmodel::zone::{write_tzif, Indicators, Version, ZType};
+                let now = std::time::SystemTime::now().duration_since(std::time::UNIX_EPOCH).map_err(|e| format!("harness: {e}"))?.as_secs() as i64;
+                let t = now - now % 3600 + *hours as i64 * 3600;
+                let m = Model { types: vec![ZType { utoff: *a, isdst: false, abbr: "AAA".into() }, ZType { utoff: *b, isdst: false, abbr: "BBB".into() }], transitions: vec![(t, 1)], footer: None };
+                let dir = crate::props::c18::work_dir().join("c05");
+                std::fs::create_dir_all(&dir).map_err(|e| format!("harness: {e}"))?;
+                let path = dir.join(format!("now-{}-{:?}.tzif", std::process::id(), std::thread::current().id()).replace(['(', ')'], ""));
+                std::fs::write(&path, write_tzif(&m, Version::V2, Indicators::None, false)).map_err(|e| format!("harness: {e}"))?;
+                scratch = Some(path.clone());
+                want_now = true;
+                (path.display().to_string(), m)
+            }
             TzSrc::File(f, colon) => {
                 let bytes = f.bytes();
                 obs.label_if(bytes.len() > 65_536, "file_larger_than_64_KiB");
@@ -407,7 +444,7 @@ impl SubCheck for LocalRoutes {
             }
         };
         if let Some(r) = &m.footer { if !r.well_inside_year() { obs.label("skipped_rule_outside_quantifier"); return Ok(()); } }
-        obs.label(match c.tz { TzSrc::Rule(..) => "posix_rule", TzSrc::System(..) => "system_file", TzSrc::File(..) => "generated_file" });
+        obs.label(match c.tz { TzSrc::Rule(..) => "posix_rule", TzSrc::System(..) => "system_file", TzSrc::File(..) => "generated_file", TzSrc::NearNow { .. } => "zone_changing_near_now" });
         let (mut inst, mut wall) = probes(&m, &c.extra);
         // the midnights around every probed change point (the deprecated date routes look there)
         let pts: Vec<i64> = inst.iter().copied().step_by(5).take(24).collect();
@@ -419,7 +456,7 @@ impl SubCheck for LocalRoutes {
         wall.retain(|w| ndt_of_unix(*w).is_some());
         inst.truncate(400);
         wall.truncate(400);
-        let req = serde_json::to_string(&LReq { inst: inst.clone(), wall: wall.clone() }).map_err(|e| format!("harness: {e}"))?;
+        let req = serde_json::to_string(&LReq { inst: inst.clone(), wall: wall.clone(), now: want_now }).map_err(|e| format!("harness: {e}"))?;
         let exe = std::env::current_exe().map_err(|e| format!("harness: {e}"))?;
         let out = std::process::Command::new(exe).arg("c05-child").arg(&req).env("TZ", &tzval).output().map_err(|e| format!("harness: cannot spawn child: {e}"));
         if let Some(p) = &scratch { let _ = std::fs::remove_file(p); }
@@ -430,6 +467,11 @@ impl SubCheck for LocalRoutes {
         }
         let resp: LResp = serde_json::from_slice(&out.stdout).map_err(|e| format!("harness: bad child output: {e}"))?;
         if resp.inst.len() != inst.len() || resp.wall.len() != wall.len() { return Err("harness: child answered a different number of probes".into()); }
+        if want_now {
+            obs.nt("local_now_near_a_transition");
+            let (ts, carried, by_instant) = resp.now.ok_or("harness: child did not report Local::now()")?;
+            ensure!(carried == m.offset_at(ts) && by_instant == carried, "Local::now() at instant {ts} carries offset {carried}; the instant route gives {by_instant}, the zone data prescribe {}", m.offset_at(ts));
+        }
         for (u, routes) in inst.iter().zip(&resp.inst) {
             for (route, r) in routes {
                 let at = if route.ends_with("_date") { u.div_euclid(86_400) * 86_400 } else { *u };
